@@ -836,6 +836,32 @@ func checkBulkRelease(p *Prog, f *ssa.Function, site ssa.CallInstruction, fSubs 
 			}
 		}
 	}
+	// a helper that clones the subscriber set into a slice of the same size
+	if call, ok := x.(*ssa.Call); ok && !okSrc {
+		if sf := call.Call.StaticCallee(); sf != nil && p.isRepoFn(sf) {
+			for _, in := range instrsOf(sf) {
+				if r, isR := in.(*ssa.Return); isR && len(r.Results) == 1 {
+					rv := r.Results[0]
+					if u, isU := rv.(*ssa.UnOp); isU {
+						if al, isA := u.X.(*ssa.Alloc); isA {
+							for _, rr := range *al.Referrers() {
+								if st, isS := rr.(*ssa.Store); isS && st.Addr == ssa.Value(al) {
+									rv = st.Val
+								}
+							}
+						}
+					}
+					if ms, isM := rv.(*ssa.MakeSlice); isM {
+						if y := lenOf(ms.Len); y != nil {
+							if fld, _ := fieldLoad(y); fld == fSubs {
+								okSrc = true
+							}
+						}
+					}
+				}
+			}
+		}
+	}
 	if !okSrc {
 		return "count is not the size of the subscriber set"
 	}
@@ -863,71 +889,72 @@ func rulePairThrottle(c *Ctx) {
 		c.undecided("rescache.Throttle.Add", "anchor", "-", "not found")
 		return
 	}
+	roots := map[*ssa.Function]bool{}
 	for _, f := range p.Repo {
 		for _, call := range callsIn(f) {
-			if _, ok := isCallTo(call, add); !ok {
-				continue
+			if _, ok := isCallTo(call, add); ok {
+				roots[TopLevel(f)] = true
 			}
-			c.inst(1)
-			args := callArgs(call.Common())
-			mc, ok := args[1].(*ssa.MakeClosure)
-			name := fnName(f)
-			pos := p.InstrPos(call)
-			what := "governed request frees its slot exactly once, outside any refusable task"
-			if !ok {
-				c.viol(name, what, pos, "argument of Throttle.Add is not a closure literal: cannot follow the slot")
-				continue
-			}
-			sp := &Spec{}
-			sp.Classify = func(t *Tracer, fr *Frame, in ssa.Instruction) []Ev {
-				if _, ok := isCallTo(in, done); ok {
-					k := "done"
-					if fr.In(func(x *Frame) bool { return x.MayDrop }) {
-						k = "done:in-refusable-task"
-					}
-					return []Ev{{Kind: k}}
-				}
-				if call, ok := in.(ssa.CallInstruction); ok {
-					if cf := calleeFunc(call.Common()); cf != nil && cf.Name() == "SendRequest" {
-						return []Ev{{Kind: "request"}}
-					}
-					if cf := calleeFunc(call.Common()); cf != nil && cf.Name() == "Access" && cf.Pkg() != nil && strings.HasSuffix(cf.Pkg().Path(), "/server") {
-						return []Ev{{Kind: "request"}}
-					}
-				}
-				return nil
-			}
-			sp.Inline = inlineIfArg(nil)
-			tr := NewTracer(p, sp, mc.Fn.(*ssa.Function))
-			tr.Run()
-			bad := ""
-			for _, path := range tr.Paths {
-				n, refusable, dropped := 0, false, false
-				for _, e := range path {
-					switch {
-					case e.Kind == "done":
-						n++
-					case e.Kind == "done:in-refusable-task":
-						n++
-						refusable = true
-					case strings.HasPrefix(e.Kind, "drop:"):
-						dropped = true
-					}
-				}
-				if n != 1 {
-					why := ""
-					if dropped {
-						why = " (the task holding Done is refused when the connection is disposing: the slot leaks and the throttle stalls)"
-					}
-					bad = fmt.Sprintf("path calls Done %d times%s: %s", n, why, tr.FmtPath(path))
-				} else if refusable {
-					bad = "Done is called inside a task that the connection may refuse: " + tr.FmtPath(path)
-				}
-			}
-			if tr.Trunc {
-				bad = "path budget exhausted"
-			}
-			c.check(bad == "", name, what, pos, fmt.Sprintf("%d full paths of the governed closure, one Done each", len(tr.Paths)), bad)
 		}
+	}
+	var names []string
+	for f := range roots {
+		names = append(names, fnName(f))
+	}
+	for _, name := range sortedStrings(names) {
+		root := p.Fn(name)
+		c.inst(1)
+		what := "governed request frees its slot exactly once, outside any refusable task"
+		sp := &Spec{InlineHelpers: true}
+		sp.Classify = func(t *Tracer, fr *Frame, in ssa.Instruction) []Ev {
+			if _, ok := isCallTo(in, add); ok {
+				return []Ev{{Kind: "add"}}
+			}
+			if _, ok := isCallTo(in, done); ok {
+				k := "done"
+				if fr.In(func(x *Frame) bool { return x.MayDrop }) {
+					k = "done:in-refusable-task"
+				}
+				return []Ev{{Kind: k, Stop: true}}
+			}
+			return nil
+		}
+		tr := NewTracer(p, sp, root)
+		tr.Run()
+		bad := ""
+		nAdd := 0
+		for _, path := range tr.Paths {
+			na, nd, refusable, dropped := 0, 0, false, false
+			for _, e := range path {
+				switch {
+				case e.Kind == "add":
+					na++
+				case e.Kind == "done":
+					nd++
+				case e.Kind == "done:in-refusable-task":
+					nd++
+					refusable = true
+				case strings.HasPrefix(e.Kind, "drop:"):
+					dropped = true
+				}
+			}
+			nAdd += na
+			if na != nd {
+				why := ""
+				if dropped && nd < na {
+					why = " (the task holding Done is refused when the connection is disposing: the slot leaks and the throttle stalls)"
+				}
+				bad = fmt.Sprintf("path takes %d throttle slots and calls Done %d times%s: %s", na, nd, why, tr.FmtPath(path))
+			} else if refusable {
+				bad = "Done is called inside a task that the connection may refuse: " + tr.FmtPath(path)
+			}
+		}
+		if tr.Trunc {
+			bad = "path budget exhausted"
+		}
+		if nAdd == 0 {
+			bad = "no path takes a slot"
+		}
+		c.check(bad == "", name, what, p.Pos(root.Pos()), fmt.Sprintf("%d full paths; every slot taken is freed exactly once", len(tr.Paths)), bad)
 	}
 }
